@@ -61,21 +61,44 @@ Proof.
   - intro H. apply mem_In' in H. congruence.
 Qed.
 
+(* ---- the loop condition is membership in `blocked` ---- *)
+Lemma mem_app x a b : mem x (a ++ b) = mem x a || mem x b.
+Proof. unfold mem. apply existsb_app. Qed.
+
+Lemma blocked_spec org used names x :
+  mem x (blocked org used names) = mem x used || (negb (x =? org) && mem x names).
+Proof.
+  unfold blocked. rewrite mem_app. f_equal.
+  induction names as [|h t IH]; simpl; [rewrite andb_false_r; reflexivity|].
+  destruct (h =? org) eqn:E; simpl.
+  - rewrite IH. apply String.eqb_eq in E. subst h.
+    destruct (x =? org) eqn:E2; simpl; reflexivity.
+  - rewrite IH. destruct (x =? h) eqn:E2; simpl; [|reflexivity].
+    apply String.eqb_eq in E2. subst x. rewrite E. reflexivity.
+Qed.
+
 (* ---- the assigned names ---- *)
-Lemma assign_keys snake used fs : map fst (assign_names snake used fs) = map i_name fs.
+Lemma assign_keys snake names used fs : map fst (assign_names snake names used fs) = map i_name fs.
 Proof. revert used. induction fs as [|f r IH]; intros used; simpl; [reflexivity|]. rewrite IH. reflexivity. Qed.
 
-Lemma assign_fresh snake fs : forall used,
-  NoDup (map snd (assign_names snake used fs)) /\
-  forall n, In n (map snd (assign_names snake used fs)) -> ~ In n used.
+Lemma assign_fresh snake names fs : forall used,
+  NoDup (map snd (assign_names snake names used fs)) /\
+  (forall n, In n (map snd (assign_names snake names used fs)) -> ~ In n used) /\
+  (forall k n, In (k, n) (assign_names snake names used fs) -> forall x, In x names -> x <> k -> n <> x).
 Proof.
-  induction fs as [|f r IH]; intros used; simpl; [split; [constructor | contradiction]|].
-  set (n0 := fresh (S (List.length used)) (py_name snake (i_name f)) used).
-  destruct (IH (n0 :: used)) as [ND NI]. split.
+  induction fs as [|f r IH]; intros used; simpl; [split; [constructor | split; [contradiction | contradiction]]|].
+  set (b := blocked (i_name f) used names).
+  set (n0 := fresh (S (List.length b)) (py_name snake (i_name f)) b).
+  assert (NB : ~ In n0 b) by (unfold n0; apply fresh_not_used; lia).
+  destruct (IH (n0 :: used)) as [ND [NI NX]]. split; [|split].
   - constructor; [|exact ND]. intro H. apply (NI n0 H). left. reflexivity.
   - intros n [E|H].
-    + subst n. change (~ In n0 used). unfold n0. apply fresh_not_used. lia.
+    + subst n. change (~ In n0 used). intro U. apply NB. unfold b, blocked. apply in_or_app. left. exact U.
     + intro U. apply (NI n H). right. exact U.
+  - intros k n [E|H] x Hx Nk.
+    + inversion E; subst k n. change (n0 <> x). intro X. apply NB. unfold b, blocked. apply in_or_app. right.
+      apply filter_In. split; [rewrite X; exact Hx|]. apply negb_true_iff. apply String.eqb_neq. rewrite X. exact Nk.
+    + apply (NX k n H x Hx Nk).
 Qed.
 
 Lemma lookup_nodup_map {X} (al : list (string * X)) (d : string -> X) : NoDup (map fst al) ->
@@ -92,9 +115,36 @@ Theorem fname_nodup snake fs : NoDup (map i_name fs) ->
   NoDup (map (fun f => fname snake fs (i_name f)) fs).
 Proof.
   intros ND. unfold fname.
-  pose proof (lookup_nodup_map (assign_names snake [] fs) (py_name snake)) as L.
+  pose proof (lookup_nodup_map (assign_names snake (map i_name fs) [] fs) (py_name snake)) as L.
   rewrite assign_keys in L. specialize (L ND). rewrite map_map in L. rewrite L.
-  apply (assign_fresh snake fs []).
+  apply (assign_fresh snake (map i_name fs) fs []).
+Qed.
+
+Lemma lookup_in_pairs {X} k (l : list (string * X)) v : lookup k l = Some v -> In (k, v) l.
+Proof.
+  induction l as [|[k' v'] r IH]; simpl; [discriminate|].
+  destruct (k =? k') eqn:E; intros H.
+  - apply String.eqb_eq in E. inversion H. subst. auto.
+  - auto.
+Qed.
+
+Lemma lookup_some_of_key {X} k (l : list (string * X)) : In k (map fst l) -> exists v, lookup k l = Some v.
+Proof.
+  induction l as [|[k' v'] r IH]; simpl; [contradiction|].
+  destruct (k =? k') eqn:E; [eauto|]. intros [H|H]; [subst; rewrite String.eqb_refl in E; discriminate | auto].
+Qed.
+
+(* the Python name of a field is never the GraphQL name of a DIFFERENT field of the same input type (fix a4347c6):
+   populate_by_name cannot read another field's value *)
+Theorem fname_not_other snake fs f g : In f fs -> In g fs -> i_name f <> i_name g ->
+  fname snake fs (i_name f) <> i_name g.
+Proof.
+  intros Hf Hg N. unfold fname.
+  destruct (lookup_some_of_key (i_name f) (assign_names snake (map i_name fs) [] fs)) as [n L].
+  { rewrite assign_keys. apply in_map. exact Hf. }
+  rewrite L. apply lookup_in_pairs in L.
+  destruct (assign_fresh snake (map i_name fs) fs []) as [_ [_ NX]].
+  apply (NX (i_name f) n L (i_name g)); [apply in_map; exact Hg | congruence].
 Qed.
 
 Lemma nodup_map_inj {X} (g : X -> string) l : NoDup (map g l) ->
